@@ -18,7 +18,10 @@ RULE = ('OnlineVariance stream: 0-40 samples (quota for 0,1,2,3), 1-7 ranks, sca
         '5-layer TransmissionModel with an in-memory H2O opacity, 1-7 ranks, distinct weights, EVERY derived parameter the '
         'model offers enabled (logg, avg_T, mu, metallicity, O/H, C/O), a freshly built model in every simulated process, and '
         'the traces also judged against a second process-local history (samples in reversed order); tied-weights stream '
-        '(judged the same way): repeated / zero / all-equal weights on 2-7 ranks. distinct non-trivial = distinct (stream, ranks, samples, weight kind, '
+        '(judged the same way): repeated / zero / all-equal weights on 2-7 ranks; route stream: the concrete optimizers '
+        '(Nestle, MultiNest, PolyChord bound to sampler doubles) built by their own constructor or from the keywords of an '
+        '[Optimizer] section, sigma_fraction 1 / default / 0.75 / 0.5 / 0.3 / 0.25 / 0.1, 10-30 posterior samples, 1-5 ranks: '
+        'which samples generate_profiles processes and what it pools. distinct non-trivial = distinct (stream, ranks, samples, weight kind, '
         'split kind, #empty ranks, #one-sample ranks) with non-constant values')
 ASSUMPTIONS = [
     'mpi4py object collectives pickle every element (fake communicator does a real pickle round trip); allreduce(SUM) '
@@ -28,6 +31,9 @@ ASSUMPTIONS = [
     'np.argsort on distinct integer keys (the gathered sample indices) is the sorting permutation; a[idx] takes '
     'the elements at idx in order',
     'rounding: model on Float vs numpy doubles compared to 1e-9 relative + 1e-12*max|x|^2',
+    'route stream: int(n*fraction) of a non-negative double = floor of the IEEE product (Variance.drawCount at Float); '
+    'random.sample(range(n), k) returns k distinct indices below n (the drawn list is an input of Variance.sampleParameters, '
+    'reproduced by seeding `random` as rank 0 does); the samplers are the doubles of harness/doubles.py and are never called',
 ]
 
 REL = 1e-9
@@ -645,6 +651,235 @@ def eval_opt_case(ctx, c):
                      [i for r in range(size) for i in range(r, n, size)], gidx, small)
 
 
+# ----------------------------------------------------------------------------- stream C: concrete optimizers, sigma_fraction
+# The post-processing is inherited by every concrete optimizer (Nestle, MultiNest, PolyChord; samplers replaced by the
+# doubles of harness/doubles.py, which are never called here).  WHICH samples it uses is decided by the option
+# `sigma_fraction`, which travels from the concrete constructor (keyword, or the entries of the par file's [Optimizer] section
+# handed to the class as keywords) to the base class: `random_int_iter(n, fraction)` draws int(n*fraction) distinct samples
+# on rank 0, the list is broadcast and strided over the ranks.  "Each sample is processed exactly once and the combined
+# variance equals the two-pass weighted variance of all samples": with sigma_fraction = 1 that is every posterior sample;
+# with a smaller fraction every drawn sample.  Model: Variance.heldFraction / drawCount / sampleParameters / postProcess
+# (theorems drawn_samples_once, sigma_fraction_one_all_samples).
+_ROUTE = {}
+ROUTE_FRACTIONS = [1.0, None, 0.5, 0.25, 1.0, 0.75, 0.1, 0.3]      # one per block of six (class x built-by) cases
+ROUTE_KEYWORD = {'nestle': 'nestle', 'multinest': 'multinest', 'polychord': 'polychord'}
+
+
+def route_classes():
+    """the concrete optimizer classes of the tree, bound to the recording sampler doubles"""
+    if 'classes' not in _ROUTE:
+        import tempfile
+        import logging
+        from taurex.log import setLogLevel
+        from harness import doubles
+        setLogLevel(logging.CRITICAL)
+        N, M, Pc = doubles.install()
+        # taurex/optimizer/__init__.py binds a wrapper only when its sampler imports; if the package was imported before the
+        # doubles were in place, finish what its own __init__ does now that they are (the class factory scans the package)
+        import taurex.optimizer as pkg
+        for name, klass in (('NestleOptimizer', N), ('MultiNestOptimizer', M), ('PolyChordOptimizer', Pc)):
+            if getattr(pkg, name, None) is not klass:
+                setattr(pkg, name, klass)
+        from taurex.parameter.classfactory import ClassFactory
+        ClassFactory().reload_plugins()         # public: re-scan the packages (the singleton may predate the doubles)
+        _ROUTE['classes'] = {'nestle': N, 'multinest': M, 'polychord': Pc}
+        _ROUTE['dir'] = tempfile.mkdtemp(prefix='verif_c18_')
+    return _ROUTE['classes']
+
+
+def route_cleanup():
+    import shutil
+    if 'dir' in _ROUTE:
+        shutil.rmtree(_ROUTE.pop('dir'), ignore_errors=True)
+        _ROUTE.pop('classes', None)
+
+
+def make_route_optimizer(cname, how, fraction, samples, weights):
+    """an optimizer of class `cname` built the way a user builds it, given the posterior (samples, weights)"""
+    import os
+    classes = route_classes()
+    m, obs = small_model()
+    kw = {}
+    if fraction is not None:
+        kw['sigma_fraction'] = float(fraction)
+    if cname == 'multinest':
+        kw['multi_nest_path'] = os.path.join(_ROUTE['dir'], 'mn')
+    elif cname == 'polychord':
+        kw['polychord_path'] = os.path.join(_ROUTE['dir'], 'pc')
+    if cname != 'nestle' or how == 'par':
+        kw['num_live_points'] = 50
+    used = how
+    if how == 'ctor':
+        o = classes[cname](observed=obs, model=m, **kw)
+    else:
+        # what `taurex -R` does with an [Optimizer] section: the class looked up by its keyword, the other entries handed to
+        # it as keywords, then set_model / set_observed
+        from taurex.parameter.factory import create_optimizer
+        try:
+            o = create_optimizer(dict(kw, optimizer=ROUTE_KEYWORD[cname]))
+        except NotImplementedError:        # class not offered by the class factory of this interpreter (sampler missing)
+            o = classes[cname](**kw)
+            used = 'par(keywords only)'
+        o.set_model(m)
+        o.set_observed(obs)
+    o.get_samples = lambda solution: samples
+    o.get_weights = lambda solution: weights
+    o.seen = []
+    inner = o.update_model
+
+    def update_model(fit_params):
+        o.seen.append([float(v) for v in fit_params])
+        return inner(fit_params)
+
+    o.update_model = update_model
+    for p_ in list(m.fittingParameters):
+        o.disable_fit(p_)
+    o.enable_fit('planet_radius')
+    o.enable_fit('T')
+    o.enable_fit('H2O')
+    o.compile_params()
+    assert o.fit_names == ['planet_radius', 'T', 'log_H2O'], o.fit_names
+    return o, used
+
+
+def route_run(o, seed, rank=0):
+    _, obs = small_model()
+    random.seed(seed if rank == 0 else (seed * 1000003 + 7919 * rank) % (2 ** 31))
+    o.seen = []
+    pd, sd = o.generate_profiles(0, obs.wavenumberGrid)
+    flat = {}
+    for k, v in list(pd.items()) + list(sd.items()):
+        flat[k] = np.asarray(v, float)
+    return dict(out=flat, seen=o.seen)
+
+
+def gen_route_case(rng, k):
+    cname = ['nestle', 'multinest', 'polychord'][k % 3]
+    how = ['ctor', 'par'][(k // 3) % 2]
+    fraction = ROUTE_FRACTIONS[(k // 6) % len(ROUTE_FRACTIONS)]
+    n = int(rng.integers(10, 31))
+    size = int(rng.integers(1, 6))
+    samples = np.stack([rng.uniform(0.8, 1.3, n), rng.uniform(600.0, 2200.0, n), rng.uniform(-6.0, -2.0, n)], axis=1)
+    w = np.sort(rng.uniform(0.05, 1.0, n))[rng.permutation(n)]
+    if rng.random() < 0.3:
+        w[rng.choice(n, size=max(1, n // 4), replace=False)] = 0.0         # underflowed posterior weights
+    return dict(stream='route', cls=cname, how=how, fraction=fraction, samples=samples, weights=w, size=size,
+                seed=int(rng.integers(0, 2 ** 31)))
+
+
+def eval_route_case(ctx, c):
+    cname, how = c['cls'], c['how']
+    fraction = None if c.get('fraction') is None else float(c['fraction'])
+    samples = np.asarray(c['samples'], float)
+    weights = np.asarray(c['weights'], float)
+    size, seed = int(c['size']), int(c['seed'])
+    n = len(weights)
+    small = dict(stream='route', cls=cname, how=how, fraction=fraction, samples=samples, weights=weights, size=size,
+                 seed=seed)
+    ftxt = 'default' if fraction is None else '%g' % fraction
+    ctx.case(key=('route', cname, how, ftxt, size), sample=dict(cls=cname, how=how, sigma_fraction=ftxt, n=n, size=size),
+             bucket='route:class:' + cname)
+    ctx.bucket('route:built-by:' + how)
+    ctx.bucket('route:sigma_fraction=' + ftxt)
+    ctx.bucket('route:ranks=%d' % size)
+    m = ctx.model()
+    try:
+        d = m.call('c18.draw', C.N(n), '0' if fraction is None else '1 ' + C.F(fraction))
+    except C.ModelError:
+        ctx.malformed_outcome('route:fraction-outside-[0,1]')
+        return
+    k_model = d.nat()
+    if k_model > n:
+        ctx.malformed_outcome('route:fraction-outside-[0,1]')
+        return
+    _MODEL.clear()
+    try:
+        o, used = make_route_optimizer(cname, how, fraction, samples, weights)
+        ref = route_run(o, seed)
+    except Exception as e:
+        ctx.violation('raises:route:' + cname, 'building %s (%s, sigma_fraction=%s) or its post-processing raised %r'
+                      % (cname, how, ftxt, e), small)
+        return
+    if used != how:
+        ctx.bucket('route:built-by:' + used)
+
+    def target(rank, nproc):
+        _MODEL.clear()
+        return route_run(make_route_optimizer(cname, how, fraction, samples, weights)[0], seed, rank)
+    try:
+        out = fakempi.run_ranks(size, target, timeout=300.0)
+    except fakempi.FakeMPIError as e:
+        ctx.violation('ranks-out-of-step', 'the simulated ranks did not enter the same collectives: %s' % e, small)
+        return
+    if any(o_['status'] != 'ok' for o_ in out):
+        err = [o_['error'] for o_ in out if o_['status'] == 'exc']
+        ctx.violation('raises:route:' + cname, 'post-processing raised on a rank: %s' % (err[:1],), small, dict(errors=err))
+        return
+    ctx.extra['exchanges'] = ctx.extra.get('exchanges', 0) + sum(o_['stats']['exchanges'] for o_ in out)
+    ctx.extra['pickled_bytes'] = ctx.extra.get('pickled_bytes', 0) + sum(o_['stats']['pickled_bytes'] for o_ in out)
+    vals = [o_['value'] for o_ in out]
+    # -- correspondence: how many posterior samples the post-processing uses
+    ctx.check_eq('number of posterior samples %s post-processes vs Variance.drawCount n (heldFraction 0.1 given)' % cname,
+                 len(ref['seen']), k_model, small)
+    # -- the property on the real code: each sample exactly once; with sigma_fraction = 1 that is every posterior sample
+    index = {tuple(r): i for i, r in enumerate(samples.tolist())}
+    single = [tuple(r) for r in ref['seen']]
+    ranks = [tuple(r) for v in vals for r in v['seen']]
+    whole = fraction is not None and fraction == 1.0
+    what = ('sigma_fraction = 1: ' if whole else 'sigma_fraction = %s: ' % ftxt)
+    if any(t not in index for t in single + ranks) or len(set(single)) != len(single) or len(set(ranks)) != len(ranks):
+        ctx.violation('each-sample-once:route:' + cname, what + 'a posterior sample was processed more than once (or '
+                      'something that is not a posterior sample was)', small,
+                      dict(single=len(single), distinct_single=len(set(single)), ranks=len(ranks),
+                           distinct_ranks=len(set(ranks))))
+        return
+    if sorted(ranks) != sorted(single):
+        ctx.violation('each-sample-once:route:' + cname, what + 'the ranks together did not process the samples the single '
+                      'process does, each exactly once', small, dict(single=len(single), ranks=len(ranks)))
+    if whole and sorted(single) != sorted(index):
+        ctx.violation('each-sample-once:route:' + cname, 'sigma_fraction = 1 (every posterior sample asked for) given to '
+                      '%s (%s): the post-processing did not process every posterior sample exactly once' % (cname, how),
+                      small, dict(processed=len(single), samples=n))
+    # -- every rank's output equals the single-process output
+    for key, rv in ref['out'].items():
+        scale = float(np.max(np.abs(rv))) if rv.size and np.all(np.isfinite(rv)) else 1.0
+        for r, v in enumerate(vals):
+            pv = v['out'].get(key)
+            if key.endswith('_std'):
+                big = 2300.0 if key.startswith('temp') else (1.0 if 'mix' in key else 0.05)
+                ok = pv is not None and pv.shape == rv.shape and close_std(pv.ravel(), rv.ravel(), 1e-7,
+                                                                           1e-12 * big * big)
+            else:
+                ok = pv is not None and pv.shape == rv.shape and C.close(pv.ravel(), rv.ravel(), 1e-9,
+                                                                         1e-12 * scale + 1e-300)
+            ctx.disagreements_checked += 1
+            if not ok:
+                ctx.violation('post-processing:route:' + key, 'profile/spectrum standard deviation of %s on %d ranks '
+                              'differs from the single-process run' % (cname, size), small,
+                              dict(single=rv, rank=r, ranks=pv))
+                break
+    # -- the combined variance is the two-pass weighted variance of all samples (isothermal profile: the value is T_i)
+    use = list(range(n)) if whole else [index[t] for t in single]
+    tstd = np.asarray(vals[0]['out']['temp_profile_std'], float).ravel()
+    got = float(tstd[0]) ** 2
+    abs_ = 1e-9 * 2200.0 ** 2
+    if len(use) >= 2:
+        _, tv = two_pass(samples[use, 1], weights[use] + 1e-300)
+        if not C.close(got, float(tv), 1e-7, abs_):
+            ctx.violation('two-pass-all-samples:route:' + cname, what + 'temp_profile_std^2 of %s (%s) is not the two-pass '
+                          'weighted variance of %s' % (cname, how, 'all %d posterior samples' % n if whole else
+                                                       'the drawn samples'), small,
+                          dict(std=float(tstd[0]), two_pass_std=float(np.sqrt(tv)), used=len(use)))
+    elif got == got:
+        ctx.violation('two-pass-all-samples:route:' + cname, what + 'fewer than two samples but a number came out', small)
+    # -- correspondence with the model: the list drawn on rank 0 (external: random.sample), strided, pooled
+    random.seed(seed)
+    draw = random.sample(range(n), k_model)
+    mv = res_of(m.call('c18.post', C.N(size), C.L(draw, C.N), C.F(1e-300), C.L(samples[:, 1]), C.L(weights)))
+    ctx.check_close('generate_profiles temp_profile_std^2 of %s vs Variance.postProcess' % cname, got,
+                    mv if mv != 'raises' else float('inf'), small, 1e-7, abs_)
+
+
 # ----------------------------------------------------------------------------- assumptions / malformed
 def validate_strided(ctx):
     rng = ctx.rng
@@ -688,6 +923,7 @@ def malformed(ctx):
 def run(ctx):
     if not hasattr(ctx, 'extra') or ctx.extra is None:
         ctx.extra = {}
+    route_classes()     # sampler doubles in place before taurex.optimizer is first imported: the class factory then offers all three
     validate_strided(ctx)
     for k in range(ctx.n(700, 9000)):
         eval_ov_case(ctx, gen_ov_case(ctx.rng, k))
@@ -695,6 +931,11 @@ def run(ctx):
         eval_opt_case(ctx, gen_opt_case(ctx.rng, k))
     for k in range(ctx.n(40, 400)):
         eval_opt_case(ctx, gen_opt_case(ctx.rng, k, tied=True))
+    try:
+        for k in range(ctx.n(30, 480)):
+            eval_route_case(ctx, gen_route_case(ctx.rng, k))
+    finally:
+        route_cleanup()
     malformed(ctx)
     ctx.extra['fake_mpi'] = 'forked ranks + pipes, pickle round trip on every exchanged object'
 
@@ -704,7 +945,12 @@ def replay(ctx, case):
         ctx.extra = {}
     if isinstance(case.get('case'), dict) and 'samples' not in case and 'xs' not in case:
         case = case['case']          # a replay file written by ./check wraps the input
-    if 'samples' in case:
+    if case.get('stream') == 'route':
+        try:
+            eval_route_case(ctx, case)
+        finally:
+            route_cleanup()
+    elif 'samples' in case:
         eval_opt_case(ctx, case)
     else:
         eval_ov_case(ctx, case)
